@@ -49,6 +49,7 @@ ASSUMPTIONS = [
     "simulated process workers share one interpreter: isolation = pickling + swapping numpy/python RNG state, Settings atol and the physicality-check epsilon",
     "1-qubit systems, <=4 workers per level, <=6 repetitions, <=3 samples; PDF report off (broken on this image for unrelated reasons)",
     "scipy.linalg.kron shim supplied by the harness; single-threaded BLAS; exact float comparison",
+    "probes that are 0 on a correct tree by design: attribute_assigned_by_two_threads / switch_after_conflicting_attribute_write count write-write conflicts between threads on one object's attribute, which the repaired tree does not have (they fire under the seeded changes r8c15a-1, r3c15a-3 and with repair D2 reverted, see selftest/sensitivity_last.txt); crash_survivor_unreadable needs the crash to tear test_setting.pickle itself (the first write) and is reached in the thorough tier",
 ]
 
 FAULT_KINDS = ["batch_split", "worker_reuse", "proc_reorder", "thread_preempt", "clock_jump_fwd", "clock_jump_back", "global_rng_pollution", "crash_at_file_write", "torn_write", "stale_output_dir", "pollution_inside_run", "worker_started_elsewhere", "task_exception", "disk_full"]
